@@ -200,6 +200,25 @@ static void run(void) {
                     case_v3(v3_norm(v3_add(m, v3_scale(nrm, off))), res, "ico-edge", &r);
                 }
             }
+        /* points that share a coordinate bit for bit with a structurally special point: due north / south (identical longitude)
+         * and due east / west (identical latitude) of every res-0 cell centre — twenty of them are the icosahedron face centres,
+         * twelve its vertices — at distances 1e-9 .. 0.3 rad.  Azimuths of exactly 0, pi and +-pi/2 from a face centre, and
+         * a zero longitude difference, are values that sampled or perturbed points never produce. */
+        {
+            int zero[15] = {0};
+            for (int bc = 0; bc < 122; bc++) {
+                if (!VF_MINE(idx++)) continue;
+                LatLng c;
+                if (cellToLatLng(vf_make_cell(0, bc, zero), &c)) continue;
+                for (int k = 0; k < VF_T(8, 24); k++) {
+                    double dlt = pow(10.0, -9.0 + 8.5 * vf_unit(&r));
+                    if (fabs(c.lat - dlt) < M_PI_2) case_point(c.lat - dlt, c.lng, res, "same-longitude");
+                    if (fabs(c.lat + dlt) < M_PI_2) case_point(c.lat + dlt, c.lng, res, "same-longitude");
+                    case_point(c.lat, c.lng + dlt, res, "same-latitude");
+                    case_point(c.lat, c.lng - dlt, res, "same-latitude");
+                }
+            }
+        }
         /* poles and antimeridian */
         if (VF_MINE(idx++)) {
             static const double L[] = {0, M_PI, -M_PI, 2 * M_PI, -2 * M_PI, 1.0, -2.5, M_PI_2, 4.0};
